@@ -808,6 +808,10 @@ func (g *generator) enterNextFinallyFrame() (canContinue bool, ex *Exception) {
 			tf.catchPos = tryPanicMarker
 			tf.finallyPos = -1
 			tf.finallyRet = tryGeneratorMarker // -1 would cause it to continue after leaveFinally
+			// The value being returned belongs to this 'finally' block: it is what the generator goes on returning
+			// when the block completes normally, even if another return() arrived (and was cancelled, e.g. by
+			// a 'break' in an inner 'finally' block) while the generator was suspended inside the block.
+			tf.result = g.returning
 			return true, nil
 		}
 		vm.popTryFrame()
@@ -862,6 +866,8 @@ func (g *generator) step() (res Value, resultType resultType, ex *Exception) {
 			}
 
 			if vm.prg != nil && vm.pc == -2 { // normal exit from finally
+				// leaveFinally has put the value that was being returned when the block was entered into vm.result
+				g.returning = vm.result
 				cont, ex1 := g.enterNextFinallyFrame()
 				if ex1 != nil {
 					ex = ex1
